@@ -93,4 +93,9 @@ TEXT = {
   "note": "trusted: Lean kernel; ArraySem as the meaning of array operations; sampling of witnesses; the model of array_smashing is not compared op-by-op with the code (only through the witness replay)",
   "technique": "Lean 4 theorems (smashing functor, cell algebra) + refinement correspondence by witness replay",
  },
+ "C15": {
+  "level": "proof (partial): Lean theorems over the region-smashing functor (one ghost variable per region, strong update only while the region provably holds a single reference, reference counters as small ranges, allocation sites) for ANY base domain satisfying its laws, against a concrete heap semantics of regions and references: regionsmash_load_sound / load_value / load_ref_sound, store_sound, copy_sound, free_sound, join/widen_sound, nullity_sound, alloc_sites_superset, history_sound; the small_range counter is modelled exactly with soundness theorems per operation (finite table, decide). The real region_domain (2900 lines: ghost variable manager, unknown regions, casts, tags, deallocation classes, ref_assume, select_ref) is compared, not transcribed: 6 domain variants x generated histories x all region_domain_params replayed on witness heaps",
+  "note": "trusted: Lean kernel; RegionSem as the meaning of region statements; sampling; open issue recorded in DESIGN.md: region_copy(g,g) with deallocation tracking raises CRAB_ERROR (skip)",
+  "technique": "Lean 4 theorems (region smashing functor, small_range) + refinement correspondence by witness-heap replay",
+ },
 }
